@@ -2706,6 +2706,8 @@ class _DeterministicUnprotectProtoAspect(
         return self.groupcontext
 
     def _get_recipient_key(self, protected_message, algorithm):
+        if protected_message.opt.request_hash is None:
+            raise ProtectionInvalid("Deterministic request without Request-Hash option")
         logging.critical(
             "Deriving recipient key for protected message %s", protected_message
         )
